@@ -104,6 +104,49 @@ def taintDiag (w : World) (depth : Nat) (o : String) (wantAllowed : Bool) : Opti
     | .ok _ _ true => some "F1"
     | _ => some "F12"
 
+mutual
+/-- subtracted operands of every exclusion in a rewrite -/
+def diffSubs : Rewrite → List Rewrite
+  | .diff b s => s :: (diffSubs b ++ diffSubs s)
+  | .union cs => diffSubsL cs
+  | .inter cs => diffSubsL cs
+  | _ => []
+def diffSubsL : List Rewrite → List Rewrite
+  | [] => []
+  | c :: cs => diffSubs c ++ diffSubsL cs
+end
+
+mutual
+def countThis : Rewrite → Nat
+  | .this => 1
+  | .union cs => countThisL cs
+  | .inter cs => countThisL cs
+  | .diff b s => countThis b + countThis s
+  | _ => 0
+def countThisL : List Rewrite → Nat
+  | [] => 0
+  | c :: cs => countThis c + countThisL cs
+end
+
+/-- shape of known finding L1: some exclusion whose subtracted operand has no edge towards the subject type -/
+def l1Shape (w : World) : Bool :=
+  let src := srcRefOf w (rootNode w)
+  w.model.types.any (fun td => td.rels.any (fun rd =>
+    (diffSubs rd.rewrite).any (fun s =>
+      match edgesGo w.model src efuel efuel [] (.rw td.name rd.name s) with
+      | some ([], _) => true
+      | _ => false)))
+
+/-- shape of known finding L4: a rewrite that names `this` more than once -/
+def l4Shape (w : World) : Bool :=
+  w.model.types.any (fun td => td.rels.any (fun rd => countThis rd.rewrite > 1))
+
+/-- shape of candidate finding L5: a valid tuple whose condition is not the condition of the type restriction
+that matches the form of its user (it is the condition of a sibling restriction of the same user type) -/
+def l5Shape (w : World) : Bool :=
+  w.all.any (fun t => t.cond ≠ "" && validForRead w.model t &&
+    !((restrsOf w.model (typeOf t.obj) t.rel).any (fun x => restrMatchesUser x t.user && x.cond = t.cond)))
+
 def step (c impl : String) : String :=
   match fields c with
   | "lo" :: mode :: _breadth :: rest =>
@@ -131,15 +174,18 @@ def step (c impl : String) : String :=
         -- the streaming pipeline (no confirming Check) only runs for plain object subjects
         let usesCheck := !(eng = "p" && !isUserset w.req.user && !isTypedWildcard w.req.user)
         if v = "HANG" then
-          [(s!"engine did not return: engine={k}" ++ (if eng = "p" then " (streaming pipeline: Pipeline.Close blocks after the deadline; teardown never reaches quiescence)" else ""), false)]
+          if eng = "p" && l4Shape w then
+            [(s!"engine did not return: engine={k} (streaming pipeline: Pipeline.Close blocks after the deadline; teardown never reaches quiescence)", false)]
+          else [(s!"engine did not return (no rewrite with several direct assignments in the model): engine={k}", false)]
         else if v.startsWith "PANIC" then [(s!"engine panicked: engine={k} {v}", false)]
         else
         match parseList v with
         | none => []
         | some out =>
           let dup := if hasDup out then
-              [(s!"duplicate object in the response: engine={k} out={v}" ++
-                (if eng = "w" then ": weighted reverse expansion sends through a fresh candidate map" else ""), false)] else []
+              (if eng = "w" && l1Shape w then
+                [(s!"duplicate object in the response: engine={k} out={v}: weighted reverse expansion sends through a fresh candidate map", false)]
+               else [(s!"duplicate object in the response (not the shape of L1): engine={k} out={v}", false)]) else []
           let bad := out.eraseDups.filterMap (fun o =>
             let cl := clsOf o
             if cl = "T" || cl = "?" then none
@@ -160,16 +206,31 @@ def step (c impl : String) : String :=
                   | some f => (s!"inherited {f}: engine={k} misses {o} (oracle=T): the confirming Check denies on a tainted decision", true)
                   | none =>
                     if k = "c0" && rm.err then (s!"truncated response without error: engine=c0 (maxResults=0) misses {o} (oracle=T): a condition evaluation error is dropped because len(objects) < int(maxResults) never holds for 0", false)
+                    else if !usesCheck && l5Shape w then (s!"pipeline misses a permitted object in a store with a tuple that carries the condition of a sibling type restriction (storage filter Conditions = edge conditions): engine={k} object={o} out={v}", false)
                     else (s!"permitted object missing: engine={k} object={o} out={v}", false))
               | some l =>
                 if out.eraseDups.length < l && !missing.isEmpty then
                   let unexplained := missing.filter (fun o => (explain o).isNone)
                   if unexplained.isEmpty then
                     [(s!"inherited F1/F12: engine={k} returns fewer than limit because confirming Checks deny on tainted decisions", true)]
+                  else if !usesCheck && l5Shape w then
+                    [(s!"pipeline misses a permitted object in a store with a tuple that carries the condition of a sibling type restriction (storage filter Conditions = edge conditions): engine={k} got={out.eraseDups.length} limit={l} missing={",".intercalate unexplained}", false)]
                   else
                     [(s!"fewer than limit objects: engine={k} got={out.eraseDups.length} limit={l} permitted={permitted.length} missing={",".intercalate unexplained} (no error, no deadline): trySendObject counts before it sends and the send races cancel()", false)]
                 else []
           dup ++ bad ++ over ++ compl)
+      -- a lost send (L3) is a rare race: it hits one run of a case; a short answer in several limited runs of
+      -- the same engine is systematic and reported as such
+      let shortRuns := fun (eng : String) =>
+        (viol.filter (fun p => !p.2 && p.1.startsWith s!"fewer than limit objects: engine={eng}")).length
+      let systematic := ["c", "w", "p"].findSome? (fun eng =>
+        if shortRuns eng ≥ 2 then
+          (viol.find? (fun p => !p.2 && p.1.startsWith s!"fewer than limit objects: engine={eng}")).map (fun p =>
+            s!"limit not reached in {shortRuns eng} of 3 limited runs: " ++ p.1)
+        else none)
+      match systematic with
+      | some why => specViol why
+      | none =>
       match viol.find? (fun p => !p.2) with
       | some (why, _) => specViol why
       | none =>
